@@ -4,6 +4,8 @@ var SetMixin *Mixin // ::Std::Set
 
 func initSet() {
 	SetMixin = NewMixin()
+	// headers: Set includes ImmutableSet (ImmutableCollection::Base) and Collection::Base
+	SetMixin.IncludeMixin(CollectionBaseMixin)
 	StdModule.AddConstantString("Set", Ref(SetMixin))
 	RegisterNativeMixin("Std::Set", "value.SetMixin")
 }
